@@ -211,7 +211,7 @@ def agent_variants(ctx):
 def run(ctx):
     ctx.rule = ('corpus of past failures, then every object kind as move target x headings x actions, then ALL poses x actions on all '
                 'Floor/Wall grids up to 2x2,1x3 (thorough: 3x3), then random states (edge-biased poses) with single functions and '
-                'compositions; non-trivial = a move action through move_agent, or a step that changed the state / a composition')
+                'compositions; step histories on one carried state object (one in three starting with bump / ACTUATE / walk in); user agents with another reach (Agent.front overridden) move like the stock agent; failing cases are minimised; non-trivial = a move action through move_agent, or a step that changed the state / a composition')
     run_cases(ctx, itt.chain(corpus(), gen_cases(ctx)))
     tsuite.run_histories(ctx, 200 if ctx.tier == 'quick' else 2000, history_oracle)
     agent_variants(ctx)
